@@ -495,13 +495,24 @@ func TestTestdata(t *testing.T) {
 		ev.Infra("only %d testdata packages found", len(dirs))
 		return
 	}
-	limit := ev.EnvInt("C16_DIRS", 100000, 100000)
-	var mine []string
-	for i, d := range dirs {
-		if i%ev.NShards() == ev.Shard() && len(mine)*ev.NShards() < limit {
-			mine = append(mine, d)
+	// quick: a slice of the testdata packages that rotates with the seed; thorough: all of them
+	limit := ev.EnvInt("C16_DIRS", 128, 100000)
+	rot := 0
+	if !ev.Thorough() {
+		if base, err := strconv.ParseInt(os.Getenv("VERIF_BASE_SEED"), 10, 64); err == nil {
+			rot = int(base%1000) * 53
+		} else {
+			rot = int(ev.Seed()%1000) * 53
 		}
 	}
+	var mine []string
+	for k := range dirs {
+		i := (k + rot) % len(dirs)
+		if k%ev.NShards() == ev.Shard() && len(mine)*ev.NShards() < limit {
+			mine = append(mine, dirs[i])
+		}
+	}
+	ev.Count("testdata_packages_selected", len(mine))
 	fs, err := runRepoDirs(mine, evalOpts{label: "unchanged testdata package"})
 	if err != nil {
 		ev.Infra("runner on testdata: %v", err)
